@@ -43,4 +43,8 @@ structure DropInfo where
 out-of-range read gives 0; the theorems that tie a generated function to its model show the index is in range. -/
 def tblAt (t : Array Nat) (i : Nat) (w : Nat) : BitVec w := BitVec.ofNat w (t.getD i 0)
 
+/-- `a[i]` of a local array of `w`-bit values read with a data-dependent index (RC2's `self.keys[(x & 63) as usize]`).  An
+out-of-range read gives 0; the tie theorems show the index is in range. -/
+def selAt {w : Nat} (l : List (BitVec w)) (i : Nat) : BitVec w := l.getD i 0
+
 end BC.Gen
